@@ -215,4 +215,183 @@ def chkInt (e : Expr) : Expr := .binop 0 true .add e (.int 0 true 0)
 def chkBool (e : Expr) : Expr := .binop 0 true .and e (.var 0 true "True")
 def chkStr (e : Expr) : Expr := .binop 0 true .concat e (.str 0 true "")
 
+
+-- ------------------------------------------------------------------ Part 2 (C20): extract variable / function
+
+/-- The tool drops one layer of parentheses around the extracted expression. -/
+def unparen : Expr → Expr
+  | .paren _ _ e => e
+  | e => e
+
+def pick (t id : Nat) (e : Expr) (rest : Option Expr) : Option Expr := if id == t then some e else rest
+
+mutual
+/-- The node `t`, if it lies on the BLOCK-FREE spine of the statement: reachable without entering a
+block (branch of `if`, loop body, `match` arm, closure body). These are exactly the positions from
+which "immediately before the enclosing statement of the same block" means: before this statement. -/
+def findSp (t : Nat) : Expr → Option Expr
+  | .int id u v => pick t id (.int id u v) none
+  | .str id u v => pick t id (.str id u v) none
+  | .var id u v => pick t id (.var id u v) none
+  | .binop id u op l r => pick t id (.binop id u op l r) ((findSp t l).or (findSp t r))
+  | .letE _ _ _ rhs => findSp t rhs
+  | .assign id u n rhs => pick t id (.assign id u n rhs) (findSp t rhs)
+  | .update id u a n rhs => pick t id (.update id u a n rhs) (findSp t rhs)
+  | .ifE id u c th el => pick t id (.ifE id u c th el) (findSp t c)
+  | .whileE id u c b => pick t id (.whileE id u c b) (findSp t c)
+  | .forE id u d e b => pick t id (.forE id u d e b) (findSp t e)
+  | .matchE id u s cs => pick t id (.matchE id u s cs) (findSp t s)
+  | .ret id u none => pick t id (.ret id u none) none
+  | .ret id u (some e) => pick t id (.ret id u (some e)) (findSp t e)
+  | .brk id u => pick t id (.brk id u) none
+  | .cont id u => pick t id (.cont id u) none
+  | .list id u es => pick t id (.list id u es) (findSpL t es)
+  | .tuple id u es => pick t id (.tuple id u es) (findSpL t es)
+  | .call id u r as => pick t id (.call id u r as) ((findSp t r).or (findSpL t as))
+  | .lambda id u ps b => pick t id (.lambda id u ps b) none
+  | .paren id u e => pick t id (.paren id u e) (findSp t e)
+  | .invalid id u => pick t id (.invalid id u) none
+  | .unsup id u w => pick t id (.unsup id u w) none
+def findSpL (t : Nat) : List Expr → Option Expr
+  | [] => none
+  | e :: rest => (findSp t e).or (findSpL t rest)
+end
+
+mutual
+/-- Replace the node `t` on the block-free spine by `r`. -/
+def replSp (t : Nat) (r : Expr) : Expr → Expr
+  | .int id u v => if id == t then r else .int id u v
+  | .str id u v => if id == t then r else .str id u v
+  | .var id u v => if id == t then r else .var id u v
+  | .binop id u op l r' => if id == t then r else .binop id u op (replSp t r l) (replSp t r r')
+  | .letE id u d rhs => .letE id u d (replSp t r rhs)
+  | .assign id u n rhs => if id == t then r else .assign id u n (replSp t r rhs)
+  | .update id u a n rhs => if id == t then r else .update id u a n (replSp t r rhs)
+  | .ifE id u c th el => if id == t then r else .ifE id u (replSp t r c) th el
+  | .whileE id u c b => if id == t then r else .whileE id u (replSp t r c) b
+  | .forE id u d e b => if id == t then r else .forE id u d (replSp t r e) b
+  | .matchE id u s cs => if id == t then r else .matchE id u (replSp t r s) cs
+  | .ret id u none => if id == t then r else .ret id u none
+  | .ret id u (some e) => if id == t then r else .ret id u (some (replSp t r e))
+  | .brk id u => if id == t then r else .brk id u
+  | .cont id u => if id == t then r else .cont id u
+  | .list id u es => if id == t then r else .list id u (replSpL t r es)
+  | .tuple id u es => if id == t then r else .tuple id u (replSpL t r es)
+  | .call id u f as => if id == t then r else .call id u (replSp t r f) (replSpL t r as)
+  | .lambda id u ps b => if id == t then r else .lambda id u ps b
+  | .paren id u e => if id == t then r else .paren id u (replSp t r e)
+  | .invalid id u => if id == t then r else .invalid id u
+  | .unsup id u w => if id == t then r else .unsup id u w
+def replSpL (t : Nat) (r : Expr) : List Expr → List Expr
+  | [] => []
+  | e :: rest => replSp t r e :: replSpL t r rest
+end
+
+mutual
+/-- Apply `HSeq` to every block nested in the expression. -/
+def H (t : Nat) (n : String) : Expr → Expr
+  | .int id u v => .int id u v
+  | .str id u v => .str id u v
+  | .var id u v => .var id u v
+  | .binop id u op l r => .binop id u op (H t n l) (H t n r)
+  | .letE id u d rhs => .letE id u d (H t n rhs)
+  | .assign id u x rhs => .assign id u x (H t n rhs)
+  | .update id u a x rhs => .update id u a x (H t n rhs)
+  | .ifE id u c th el => .ifE id u (H t n c) (HSeq t n th) (HOpt t n el)
+  | .whileE id u c b => .whileE id u (H t n c) (HSeq t n b)
+  | .forE id u d e b => .forE id u d (H t n e) (HSeq t n b)
+  | .matchE id u s cs => .matchE id u (H t n s) (HCases t n cs)
+  | .ret id u none => .ret id u none
+  | .ret id u (some e) => .ret id u (some (H t n e))
+  | .brk id u => .brk id u
+  | .cont id u => .cont id u
+  | .list id u es => .list id u (HList t n es)
+  | .tuple id u es => .tuple id u (HList t n es)
+  | .call id u f as => .call id u (H t n f) (HList t n as)
+  | .lambda id u ps b => .lambda id u ps (HSeq t n b)
+  | .paren id u e => .paren id u (H t n e)
+  | .invalid id u => .invalid id u
+  | .unsup id u w => .unsup id u w
+/-- A statement sequence: the statement on whose block-free spine the node `t` lies gets
+`let n = <node t>` inserted IMMEDIATELY BEFORE it, in this same block, and the node replaced by `n`. -/
+def HSeq (t : Nat) (n : String) : List Expr → List Expr
+  | [] => []
+  | e :: rest =>
+    match findSp t e with
+    | some x => .letE 0 false (.sym n) (unparen x) :: replSp t (.var 0 false n) e :: HSeq t n rest
+    | none => H t n e :: HSeq t n rest
+def HList (t : Nat) (n : String) : List Expr → List Expr
+  | [] => []
+  | e :: rest => H t n e :: HList t n rest
+def HOpt (t : Nat) (n : String) : Option (List Expr) → Option (List Expr)
+  | none => none
+  | some b => some (HSeq t n b)
+def HCases (t : Nat) (n : String) : List Case → List Case
+  | [] => []
+  | .mk v d b :: rest => .mk v d (HSeq t n b) :: HCases t n rest
+end
+
+def hoistProg (t : Nat) (n : String) (p : Program) : Program :=
+  { p with funs := p.funs.map (fun d => { d with body := HSeq t n d.body }), toplevel := HSeq t n p.toplevel }
+
+/-- C20, extract variable: up to ids / flags, `p'` is `p` with `let n = e` (`e` = the node `t`, one
+layer of parentheses dropped) inserted as a statement immediately before the enclosing statement in
+the same block and that occurrence (only) replaced by the variable `n`; `n` is fresh. -/
+def IsLetHoist (p p' : Program) (t : Nat) (n : String) : Prop :=
+  WP stripCfg p' = WP stripCfg (hoistProg t n p) ∧ hitsProg t p = 1 ∧ freshProg n p = true
+
+def hoistCheck (p p' : Program) (t : Nat) (n : String) : Bool :=
+  progEq (WP stripCfg p') (WP stripCfg (hoistProg t n p)) && hitsProg t p == 1 && freshProg n p
+
+def callOf (n : String) (ps : List String) : Expr := .call 0 false (.var 0 false n) (ps.map fun x => .var 0 false x)
+
+/-- Replace the node `t` (anywhere) by the call, provided the node is (up to ids / flags) `body`. -/
+def funCfg (t : Nat) (n : String) (ps : List String) (body : Expr) : WCfg :=
+  { strip := true, sel := fun i => i == t,
+    wrap := fun core => if exprEq core (W stripCfg body) then callOf n ps else .invalid 0 false,
+    ok := fun _ => true, k := 0, fk := none }
+
+/-- C20, extract function: `p'` has one more toplevel function `n`, whose body is the single
+expression `e` = the node `t` of `p`, and `p'` without it is `p` with that node replaced by the call
+`n(params…)` (arguments = the parameter names, in the same order); `n` is fresh. -/
+def IsFunExtract (p p' : Program) (t : Nat) (n : String) : Prop :=
+  ∃ d b, p'.funs.find? (fun d => d.name == n) = some d ∧ d.body = [b] ∧
+    WP stripCfg { p' with funs := p'.funs.filter fun d => d.name != n } = WP (funCfg t n d.params b) p ∧
+    hitsProg t p = 1 ∧ freshProg n p = true ∧ (funNames p).contains n = false
+
+def funextCheck (p p' : Program) (t : Nat) (n : String) : Bool :=
+  match p'.funs.find? (fun d => d.name == n) with
+  | none => false
+  | some d =>
+    match d.body with
+    | [b] =>
+      progEq (WP stripCfg { p' with funs := p'.funs.filter fun d => d.name != n }) (WP (funCfg t n d.params b) p) &&
+        hitsProg t p == 1 && freshProg n p && !(funNames p).contains n
+    | _ => false
+
+mutual
+/-- `Pure`: built from literals, variables, operators, parentheses, list / tuple literals and calls of
+`string_repr` or of an enum constructor — no call of `print` / `println` / `dbg` or of a user function,
+no assignment, no binder, no block. Such an expression never changes the store or the output
+(`pure_keeps_state`); it may still raise an error (type error, division by zero, unbound variable). -/
+def pureE (ctors : List String) : Expr → Bool
+  | .int .. => true
+  | .str .. => true
+  | .var .. => true
+  | .binop _ _ _ l r => pureE ctors l && pureE ctors r
+  | .paren _ _ e => pureE ctors e
+  | .list _ _ es => pureL ctors es
+  | .tuple _ _ es => pureL ctors es
+  | .call _ _ (.var _ _ f) as => (f == "string_repr" || ctors.contains f) && pureL ctors as
+  | _ => false
+def pureL (ctors : List String) : List Expr → Bool
+  | [] => true
+  | e :: rest => pureE ctors e && pureL ctors rest
+end
+
+/-- Names that are enum constructors in `p` (with payload) and not shadowed by a function. -/
+def ctorsOf (p : Program) : List String :=
+  ((p.enums ++ Machine.preludeEnums).flatMap fun e => (e.variants.filter (·.2)).map (·.1)).filter
+    fun v => !(funNames p).contains v
+
 end Extract
